@@ -130,7 +130,9 @@ theorem loopSym_noVal (i : Nat) : (loopSym i).noVal = loopSym i := rfl
 
 /-- a value as it is in a freshly loaded program: symbolic parameters hold no value -/
 def Val.noVal : Val → Val
-  | .sym e => .sym e.noVal
+  | .sym e => match constVal e with
+    | some v => .sc v           -- a constant expression is written (and comes back) as its value
+    | none => .sym e.noVal
   | v => v
 
 theorem all_lt_of {n : Nat} {l : List Nat} (h : ∀ i ∈ l, i < n) : l.all (· < n) = true := by
@@ -156,10 +158,14 @@ def ValBB (P : String → Option Sym) (tdm : Bool) (n : Nat) : Val → Prop
   | .sc _ => True
   | .arr _ _ => True
   | .str s => P s = none
-  | .sym e => (e.meas ≠ [] ∧ ∀ i ∈ e.meas, i < n)
+  | .sym e => (∃ v, constVal e = some v)
+      ∨ (constVal e = none ∧ e.meas ≠ [] ∧ ∀ i ∈ e.meas, i < n)
       ∨ (tdm = true ∧ ∃ i, e = loopSym i)
-      ∨ (e.meas = [] ∧ (tdm = false ∨ e.pos.loop = none) ∧ P e.pos.text = some e.noVal)
+      ∨ (constVal e = none ∧ e.meas = [] ∧ (tdm = false ∨ e.pos.loop = none) ∧ P e.pos.text = some e.noVal)
   | _ => False
+
+theorem loopSym_const (i : Nat) : constVal (loopSym i) = none := by
+  simp [constVal, loopSym]
 
 /-- Blackbird: writer, text layer, reader on one argument -/
 theorem bb_val_rt {P : String → Option Sym} {tdm : Bool} {n : Nat} {v : Val} (h : ValBB P tdm n v) :
@@ -171,16 +177,18 @@ theorem bb_val_rt {P : String → Option Sym} {tdm : Bool} {n : Nat} {v : Val} (
     have h' : P s = none := h
     cases tdm <;> simp [bbArg, textVal, rdArg, tdmArg, unPname, bbExpr, h', convert, Val.noVal]
   | sym e =>
-    rcases h with ⟨h1, h2⟩ | ⟨h1, i, rfl⟩ | ⟨h1, h2, h3⟩
+    rcases h with ⟨v, hc⟩ | ⟨hc, h1, h2⟩ | ⟨h1, i, rfl⟩ | ⟨hc, h1, h2, h3⟩
+    · cases tdm <;> simp [bbArg, hc, textVal, rdArg, tdmArg, unPname, bbExpr, convert, Val.noVal]
     · cases tdm <;>
-        simp [bbArg, h1, textVal, rdArg, tdmArg, unPname, bbExpr, convert, all_lt_of h2, Val.noVal]
+        simp [bbArg, hc, h1, textVal, rdArg, tdmArg, unPname, bbExpr, convert, all_lt_of h2, Val.noVal]
     · subst h1
-      simp [bbArg, loopSym_meas, loopSym_loop, textVal, rdArg, tdmArg, bbExpr, convert, Val.noVal, loopSym_noVal]
+      simp [bbArg, loopSym_const, loopSym_meas, loopSym_loop, textVal, rdArg, tdmArg, bbExpr, convert, Val.noVal,
+        loopSym_noVal]
     · rcases h2 with rfl | h2
-      · simp [bbArg, h1, textVal, rdArg, unPname, bbExpr, h3, convert, Val.noVal]
+      · simp [bbArg, hc, h1, textVal, rdArg, unPname, bbExpr, h3, convert, Val.noVal]
       · cases tdm
-        · simp [bbArg, h1, textVal, rdArg, unPname, bbExpr, h3, convert, Val.noVal]
-        · simp [bbArg, h1, h2, textVal, rdArg, tdmArg, bbExpr, h3, convert, Val.noVal]
+        · simp [bbArg, hc, h1, textVal, rdArg, unPname, bbExpr, h3, convert, Val.noVal]
+        · simp [bbArg, hc, h1, h2, textVal, rdArg, tdmArg, bbExpr, h3, convert, Val.noVal]
   | lst l => cases h
   | rrt e => cases h
   | pname i => cases h
@@ -279,6 +287,7 @@ def rdBBOp (P : String → Option Sym) (tdm : Bool) (n : Nat) (o : BBOp) : Excep
 
 theorem rdBBOp_eq (P : String → Option Sym) (tdm : Bool) (n : Nat) (o : BBOp) :
     rdBBOp P tdm n o = (do
+      checkName o.op
       let args ← (o.args.map (bbExpr P ∘ rdArg tdm)).mapM (convert n)
       let kws ← convertKw n (o.kwargs.map fun kv => (kv.1, bbExpr P (rdArg tdm kv.2)))
       build o.op o.modes args kws false) := by
@@ -286,7 +295,7 @@ theorem rdBBOp_eq (P : String → Option Sym) (tdm : Bool) (n : Nat) (o : BBOp) 
 
 /-- commands in the fragment Blackbird expresses -/
 def CmdBB (P : String → Option Sym) (tdm : Bool) (n : Nat) (c : Cmd) : Prop :=
-  c.kw = [] ∧ (∀ v ∈ c.pars, ValBB P tdm n v) ∧
+  SFV.Gen.ioClassNames.contains c.cls = true ∧ c.kw = [] ∧ (∀ v ∈ c.pars, ValBB P tdm n v) ∧
   ((isMeasure c.cls = true ∧ c.cls ≠ "Fouriergate" ∧ c.dagger = false ∧ OptSel c.select ∧ OptSel c.dark ∧
       (c.dark = none ∨ c.cls = "MeasureFock")) ∨
    (isMeasure c.cls = false ∧ c.select = none ∧ c.dark = none ∧
@@ -305,9 +314,10 @@ theorem bb_cmd_rt {P : String → Option Sym} {tdm : Bool} {n : Nat} {c : Cmd} (
     ∃ o, toBBOp tdm c = .ok o ∧ o.modes = c.regs ∧
       rdBBOp P tdm n (textOp o) = .ok (clearCmd (normCmd c)) := by
   obtain ⟨cls, regs, pars, dagger, select, dark, kw⟩ := c
-  obtain ⟨hkw, hv, h⟩ := h
-  simp only at hkw hv
+  obtain ⟨hnm, hkw, hv, h⟩ := h
+  simp only at hnm hkw hv
   subst hkw
+  have hck : checkName cls = .ok () := by unfold checkName; rw [if_pos hnm]
   rcases h with ⟨hm, hF, hd, hs, hdk, hmf⟩ | ⟨hm, hsel, hdark, h⟩
   · simp only at hm hF hd hs hdk hmf
     subst hd
@@ -316,7 +326,7 @@ theorem bb_cmd_rt {P : String → Option Sym} {tdm : Bool} {n : Nat} {c : Cmd} (
     unfold measKw at hk
     simp only at hk
     obtain ⟨k1, _⟩ := kw_facts P tdm n select dark hs hdk
-    simp only [rdBBOp_eq, textOp, hk, k1, bb_vals_rt hv, bind, Except.bind]
+    simp only [rdBBOp_eq, textOp, hck, hk, k1, bb_vals_rt hv, bind, Except.bind]
     rw [build_ok hF hs hdk]
     rfl
   · simp only at hm hsel hdark h
@@ -324,14 +334,15 @@ theorem bb_cmd_rt {P : String → Option Sym} {tdm : Bool} {n : Nat} {c : Cmd} (
     rcases h with ⟨hF, hp, hd⟩ | ⟨hF, hdag⟩
     · subst hF hp hd
       refine ⟨_, by simp only [toBBOp, hm, Bool.false_eq_true, ↓reduceIte]; rfl, rfl, ?_⟩
-      simp only [rdBBOp_eq, textOp, ctorParams, ↓reduceIte, List.map_nil, List.mapM_nil, convertKw, bind,
+      have hck' : checkName "Fouriergate" = .ok () := hck
+      simp only [rdBBOp_eq, textOp, hck', ctorParams, ↓reduceIte, List.map_nil, List.mapM_nil, convertKw, bind,
         Except.bind, pure, Except.pure]
       rw [build_fourier]
       rfl
     · cases dagger with
       | false =>
         refine ⟨_, by simp only [toBBOp, hm, Bool.false_eq_true, ↓reduceIte]; rfl, rfl, ?_⟩
-        simp only [rdBBOp_eq, textOp, ctorParams, if_neg hF, bb_vals_rt hv, List.map_nil, convertKw,
+        simp only [rdBBOp_eq, textOp, hck, ctorParams, if_neg hF, bb_vals_rt hv, List.map_nil, convertKw,
           List.mapM_nil, bind, Except.bind, pure, Except.pure]
         rw [build_ok_nokw hF]
         rfl
@@ -345,7 +356,7 @@ theorem bb_cmd_rt {P : String → Option Sym} {tdm : Bool} {n : Nat} {c : Cmd} (
         refine ⟨{ op := cls, modes := regs, args := (b :: as).map (bbArg tdm), kwargs := [] }, ?_, rfl, ?_⟩
         · simp only [toBBOp, hm, Bool.false_eq_true, ↓reduceIte, hneg, ctorParams, if_neg hF, negFirst, hb]
           rfl
-        · simp only [rdBBOp_eq, textOp, bb_vals_rt hall, List.map_nil, convertKw, List.mapM_nil, bind,
+        · simp only [rdBBOp_eq, textOp, hck, bb_vals_rt hall, List.map_nil, convertKw, List.mapM_nil, bind,
             Except.bind, pure, Except.pure]
           rw [build_ok_nokw hF]
           simp only [normCmd, hb, Option.getD_some, clearCmd]
@@ -437,8 +448,9 @@ def rdKw (P : String → Option Sym) (tdm : Bool) (k : Nat) (v : Val) : Except E
 /-- a symbolic parameter XIR carries: a TDM loop variable, or an expression (free and measured
 parameters of existing modes) whose printed form SymPy parses back -/
 def SymX (P : String → Option Sym) (tdm : Bool) (k n : Nat) (e : Sym) : Prop :=
+  (∃ v, constVal e = some v) ∨
   (tdm = true ∧ ∃ i, i < k ∧ e = loopSym i) ∨
-  ((tdm = false ∨ e.pos.loop = none) ∧ P e.pos.plain = some e.noVal ∧ ∀ i ∈ e.meas, i < n)
+  (constVal e = none ∧ (tdm = false ∨ e.pos.loop = none) ∧ P e.pos.plain = some e.noVal ∧ ∀ i ∈ e.meas, i < n)
 
 /-- a parameter XIR carries: numbers, arrays (1-D: shape = length), symbolic parameters -/
 def ValX (P : String → Option Sym) (tdm : Bool) (k n : Nat) : Val → Prop
@@ -454,18 +466,22 @@ def PhiX (P : String → Option Sym) (tdm : Bool) (k n : Nat) : Val → Prop
   | _ => False
 
 theorem xir_sym_rt {P : String → Option Sym} {tdm : Bool} {k n : Nat} {e : Sym} (h : SymX P tdm k n e) :
-    (rdX P tdm k (xirArg tdm (.sym e)) >>= convert n) = .ok (.sym e.noVal) ∧
-    (rdKw P tdm k (xirArg tdm (.sym e)) >>= convert n) = .ok (.sym e.noVal) := by
-  rcases h with ⟨rfl, i, hi, rfl⟩ | ⟨h1, h2, h3⟩
-  · simp [rdX, rdKw, xirArg, loopSym_loop, xirReadArgTdm, xirReadKwTdm, hi, bind, Except.bind, convert,
-      loopSym_meas, loopSym_noVal]
+    (rdX P tdm k (xirArg tdm (.sym e)) >>= convert n) = .ok (Val.noVal (.sym e)) ∧
+    (rdKw P tdm k (xirArg tdm (.sym e)) >>= convert n) = .ok (Val.noVal (.sym e)) := by
+  rcases h with ⟨v, hc⟩ | ⟨rfl, i, hi, rfl⟩ | ⟨hc, h1, h2, h3⟩
+  · cases tdm <;>
+      simp [rdX, rdKw, xirArg, hc, xirReadArg, xirReadArgTdm, xirReadKwTdm, unPname, xirExpr, bind, Except.bind,
+        convert, Val.noVal]
+  · simp [rdX, rdKw, xirArg, loopSym_const, loopSym_loop, xirReadArgTdm, xirReadKwTdm, hi, bind, Except.bind,
+      convert, loopSym_meas, loopSym_noVal, Val.noVal]
   · rcases h1 with rfl | h1
-    · simp [rdX, rdKw, xirArg, xirReadArg, unPname, xirExpr, h2, bind, Except.bind, convert]
+    · simp [rdX, rdKw, xirArg, hc, xirReadArg, unPname, xirExpr, h2, bind, Except.bind, convert, Val.noVal]
       exact h3
     · cases tdm
-      · simp [rdX, rdKw, xirArg, xirReadArg, unPname, xirExpr, h2, bind, Except.bind, convert]
+      · simp [rdX, rdKw, xirArg, hc, xirReadArg, unPname, xirExpr, h2, bind, Except.bind, convert, Val.noVal]
         exact h3
-      · simp [rdX, rdKw, xirArg, h1, xirReadArgTdm, xirReadKwTdm, xirExpr, h2, bind, Except.bind, convert]
+      · simp [rdX, rdKw, xirArg, hc, h1, xirReadArgTdm, xirReadKwTdm, xirExpr, h2, bind, Except.bind, convert,
+          Val.noVal]
         exact h3
 
 theorem xir_val_rt {P : String → Option Sym} {tdm : Bool} {k n : Nat} {v : Val} (h : ValX P tdm k n v) :
@@ -535,6 +551,7 @@ def rdKwEntry (P : String → Option Sym) (tdm : Bool) (k : Nat) (kv : String ×
 theorem rdXStmt_kw (P : String → Option Sym) (tdm : Bool) (n k : Nat) (name : String) (l : List (String × Val))
     (wires : List Nat) (inv : Bool) :
     rdXStmt P tdm n k ⟨name, .kw l, wires, inv⟩ = (do
+      checkName name
       let vals ← l.mapM (rdKwEntry P tdm k)
       let kws ← convertKw n vals
       build name wires [] kws inv) := by
@@ -543,6 +560,7 @@ theorem rdXStmt_kw (P : String → Option Sym) (tdm : Bool) (n k : Nat) (name : 
 theorem rdXStmt_pos (P : String → Option Sym) (tdm : Bool) (n k : Nat) (name : String) (l : List Val)
     (wires : List Nat) (inv : Bool) :
     rdXStmt P tdm n k ⟨name, .pos l, wires, inv⟩ = (do
+      checkName name
       let a ← l.mapM (rdX P tdm k)
       let a ← a.mapM (convert n)
       build name wires a [] inv) := by
@@ -626,7 +644,7 @@ theorem build_phi {cls : String} {regs : List Nat} {a : Val} {sel dark : Option 
 
 /-- commands in the fragment XIR expresses -/
 def CmdX (P : String → Option Sym) (tdm : Bool) (k n : Nat) (c : Cmd) : Prop :=
-  c.kw = [] ∧
+  SFV.Gen.ioClassNames.contains c.cls = true ∧ c.kw = [] ∧
   ((isMeasure c.cls = true ∧ c.cls ≠ "Fouriergate" ∧ (c.pars = [] ∨ ∃ a, c.pars = [a] ∧ PhiX P tdm k n a) ∧
       OptSel c.select ∧ OptSel c.dark ∧ (c.dark = none ∨ c.cls = "MeasureFock")) ∨
    (isMeasure c.cls = false ∧ c.select = none ∧ c.dark = none ∧
@@ -638,15 +656,16 @@ parameters holding no value -/
 theorem xir_cmd_rt {P : String → Option Sym} {tdm : Bool} {k n : Nat} {c : Cmd} (h : CmdX P tdm k n c) :
     rdXStmt P tdm n k (toXStmt tdm c) = .ok (clearCmd c) := by
   obtain ⟨cls, regs, pars, dagger, select, dark, kw⟩ := c
-  obtain ⟨hkw, h⟩ := h
-  simp only at hkw
+  obtain ⟨hnm, hkw, h⟩ := h
+  simp only at hnm hkw
   subst hkw
+  have hck : checkName cls = .ok () := by unfold checkName; rw [if_pos hnm]
   rcases h with ⟨hm, hF, hp, hs, hdk, hmf⟩ | ⟨hm, hsel, hdark, h⟩
   · simp only at hm hF hp hs hdk hmf
     have hk := measKw_eq (c := ⟨cls, regs, pars, dagger, select, dark, []⟩) hmf
     unfold measKw at hk
     simp only at hk
-    simp only [toXStmt, hm, ↓reduceIte, rdXStmt_kw]
+    simp only [toXStmt, hm, ↓reduceIte, rdXStmt_kw, hck]
     rw [List.append_assoc, hk]
     rcases hp with rfl | ⟨a, rfl, ha⟩
     · simp only [List.nil_append]
@@ -681,11 +700,12 @@ theorem xir_cmd_rt {P : String → Option Sym} {tdm : Bool} {k n : Nat} {c : Cmd
     subst hsel hdark
     rcases h with ⟨hF, hp⟩ | ⟨hF, hv⟩
     · subst hF hp
-      simp only [toXStmt, hm, Bool.false_eq_true, ↓reduceIte, ctorParams, List.map_nil, rdXStmt_pos,
+      have hck' : checkName "Fouriergate" = .ok () := hck
+      simp only [toXStmt, hm, Bool.false_eq_true, ↓reduceIte, ctorParams, List.map_nil, rdXStmt_pos, hck',
         List.mapM_nil, bind, Except.bind, pure, Except.pure]
       rw [build_fourier]
       rfl
-    · simp only [toXStmt, hm, Bool.false_eq_true, ↓reduceIte, ctorParams, if_neg hF, rdXStmt_pos]
+    · simp only [toXStmt, hm, Bool.false_eq_true, ↓reduceIte, ctorParams, if_neg hF, rdXStmt_pos, hck]
       have := xir_vals_rt (P := P) (tdm := tdm) (k := k) (n := n) hv
       simp only [bind, Except.bind] at this ⊢
       cases h1 : (pars.map (xirArg tdm)).mapM (rdX P tdm k) with
@@ -765,9 +785,9 @@ theorem xir_prog_rt (P : String → Option Sym) (p : Prog) (h : ExprX P p) :
 
 /-! ### state kept between calls: the writers do not look at the values parameters hold -/
 
-/-- give every symbolic parameter another held value -/
+/-- give every symbolic parameter that has free or measured atoms another held value -/
 def Val.reval (f : Sym → Option Sc) : Val → Val
-  | .sym e => .sym { e with val := f e }
+  | .sym e => if e.meas = [] ∧ e.frees = [] then .sym e else .sym { e with val := f e }
   | v => v
 
 def Cmd.reval (f : Sym → Option Sc) (c : Cmd) : Cmd := { c with pars := c.pars.map (Val.reval f) }
@@ -775,7 +795,12 @@ def Cmd.reval (f : Sym → Option Sc) (c : Cmd) : Cmd := { c with pars := c.pars
 def Prog.reval (f : Sym → Option Sc) (p : Prog) : Prog := { p with cmds := p.cmds.map (Cmd.reval f) }
 
 theorem xirArg_reval (f : Sym → Option Sc) (tdm : Bool) (v : Val) : xirArg tdm (v.reval f) = xirArg tdm v := by
-  cases v <;> rfl
+  cases v with
+  | sym e =>
+    by_cases hc : e.meas = [] ∧ e.frees = []
+    · simp [Val.reval, hc]
+    · simp [Val.reval, hc, xirArg, constVal]
+  | _ => rfl
 
 theorem toXStmt_reval (f : Sym → Option Sc) (tdm : Bool) (c : Cmd) : toXStmt tdm (c.reval f) = toXStmt tdm c := by
   obtain ⟨cls, regs, pars, dagger, select, dark, kw⟩ := c
